@@ -32,6 +32,11 @@ pub broadcast axiom fn axiom_slice_contains_var<T>(s: Seq<T>, x: T)
 /// marker: T's PartialEq is the derived, structural one (asserted per type by the unit that extracts it)
 pub uninterp spec fn structural_eq<T>() -> bool;
 
+// TRUSTED[vec-len-isize-max]: a Vec whose element type is not zero-sized holds at most isize::MAX elements (Rust allocation
+// limit: at most isize::MAX bytes). Only to be invoked for non-zero-sized element types (here: Vec<Component>).
+pub axiom fn axiom_vec_len_fits_isize<T>(v: &Vec<T>)
+    ensures v@.len() <= isize::MAX;
+
 /// the str value with a given text
 pub uninterp spec fn str_of(v: Seq<char>) -> &'static str;
 // TRUSTED[str-view-injective]: a str value is determined by its text (spec-level strs are immutable texts); needed because
